@@ -9,7 +9,7 @@ check("C02",
   "bounded symbolic execution of the real Resolver + term-class operator overloads on ASTs whose variable names are z3 variables (aliasing decided by the solver), differential against a reference set algebra",
   "model_checking",
   "For every formula shape of the documented language within the size bound, the real Resolver and the operator overloads of Intercept/NegatedIntercept/Term/GroupSpecificTerm/Response/Model run on ASTs whose variable names are solver variables; each == between names is a z3-decided fork, so one path covers every naming with that aliasing pattern. The resulting response, common-term set and group-term set must equal the reference Wilkinson-Rogers/lme4 expansion; an exception for an in-language formula is a violation. Exhaustive within the stated bounds.",
-  "Trusted: the reference algebra (ref_T/ref_chain in vf/props/c02.py) written from the statement; z3. Scanner/Parser are bypassed (C01 covers them). One known finding (effect-side removal literal after a sum) is listed in known_findings.json.",
+  "Trusted: the reference algebra (ref_T/ref_chain in vf/props/c02.py) written from the statement; z3. Scanner/Parser are bypassed (C01 covers them).",
   "DESIGN.md section 4 C02")
 
 check("C04",
@@ -23,7 +23,7 @@ check("C06",
   "symbolic execution of the real design_matrices + evaluate_new_data on z3-real numeric cells; new rows == training rows as z3 terms",
   "model_checking",
   "For every generated (formula, flavour) the real pipeline builds the design on a complete-factorial training frame whose numeric cells are z3 reals, then evaluates common and group matrices on row multisets of that frame (singles, repetition, reversed, subsets lacking a level). The new matrix must equal the selected training rows as z3 terms: a re-estimated mean/std/first value/level set yields a different term and a two-row model, which is replayed on floats. Branches on symbolic values (e.g. truthiness of a fitted mean) are explored exhaustively.",
-  "Trusted: z3; stubs listed in evidence. bs()/orthogonal poly run on concrete floats (FITPACK / float buffer) and only their exact row identity and params_set are checked there. Definitional constraints of quotients / square roots are added lazily (only when an obligation needs them). One known finding (binary() refuses absent level on new rows).",
+  "Trusted: z3; stubs listed in evidence. bs()/orthogonal poly run on concrete floats (FITPACK / float buffer) and only their exact row identity and params_set are checked there. Definitional constraints of quotients / square roots are added lazily (only when an obligation needs them).",
   "DESIGN.md section 4 C06")
 
 check("C08",
@@ -92,8 +92,8 @@ check("C13",
 check("C05",
   "symbolic execution of the real pipeline on z3-real cells for the block structure (zero outside the own group, sorted groups, effect columns == a common-effects coding) and QF_LRA rank/span decisions per grouping factor on exact integer data",
   "model_checking",
-  "S part: for every generated (formula, flavour, row order) each group-specific term equals, as z3 terms, a matrix that is zero outside the slots of the row's own group, the groups are listed in sorted (declared for ordered data) order with g1:g2 cells lexicographic, and the effect columns equal the full or reduced common-effects coding of the effect term. L part: for every (effect expression, grouping expression, with/without 0 +) z3 (QF_LRA) decides that the columns of all terms sharing a grouping factor are linearly independent and span ModelSpace(effect) (x) indicators(group cells). Three known findings (effect interactions without margins, several terms without intercept) are listed by explicit formula.",
-  "Trusted: z3; exact integer data in general position (L); stubs in evidence (S); the three lists under known/. Effect/grouping expressions and flavours are enumerated.",
+  "S part: for every generated (formula, flavour, row order) each group-specific term equals, as z3 terms, a matrix that is zero outside the slots of the row's own group, the groups are listed in sorted (declared for ordered data) order with g1:g2 cells lexicographic, and the effect columns equal the full or reduced common-effects coding of the effect term. L part: for every (effect expression, grouping expression, with/without 0 +) z3 (QF_LRA) decides that the columns of all terms sharing a grouping factor are linearly independent and span ModelSpace(effect) (x) indicators(group cells).",
+  "Trusted: z3; exact integer data in general position (L); stubs in evidence (S); Effect/grouping expressions and flavours are enumerated.",
   "DESIGN.md section 4 C05")
 
 check("C11",
@@ -106,7 +106,7 @@ check("C11",
 check("C12",
   "symbolic execution of call terms through the real pipeline on z3-real columns, differential against Python's own eval of the same text on the same symbolic columns (z3 decides equality); names compared with the normalised source text",
   "model_checking",
-  "For every argument expression of the bound (all operator trees of depth <= 2 over columns and number literals with unary signs and the 11 binary operators, a slice of depth 3 incl. arithmetic over comparison results) and 21 call forms (positional/keyword/nested calls to recording functions, string/True/False/None literals, whitespace variants): the column produced by the real pipeline equals, as z3 terms (comparisons fork per row), Python's eval of the same text; recording functions receive the arguments Python would pass; the term name is the normalised source text; whitespace variants are one term; {e} is I(e); texts with different trees have different names; two different calls in one formula stay two terms. Four known findings (sign over power, power chains, parentheses dropped from names, resulting name collisions) are matched by structural markers of the input plus the observed reading.",
+  "For every argument expression of the bound (all operator trees of depth <= 2 over columns and number literals with unary signs and the 11 binary operators, a slice of depth 3 incl. arithmetic over comparison results) and 21 call forms (positional/keyword/nested calls to recording functions, string/True/False/None literals, whitespace variants): the column produced by the real pipeline equals, as z3 terms (comparisons fork per row), Python's eval of the same text; recording functions receive the arguments Python would pass; the term name is the normalised source text with exactly the parentheses the grammar needs; whitespace variants are one term; {e} is I(e); texts with different trees have different names; two different calls in one formula stay two terms. Three known findings (sign over an un-parenthesised power, chains of **, and the resulting identity of two texts that Python reads differently) are matched by structural markers of the input plus the observed formula-grammar reading.",
   "Trusted: z3; Python's eval as oracle; stubs in evidence; powers with non-integer / symbolic exponents are uninterpreted functions (same symbol on both sides). Chained comparisons, constant-only expressions and strings containing quote characters are outside.",
   "DESIGN.md section 4 C12")
 
